@@ -29,6 +29,76 @@ func isLoadSourceCall(info *types.Info, ce *ast.CallExpr) bool {
 	return isString(sig.Results().At(0).Type()) && isString(sig.Results().At(1).Type())
 }
 
+// loadSourceLike: fn is a function of the module that obtains (location, data) from a LoadSource call — or from
+// another such function — and returns both: every return that hands back the data variable at result
+// index di hands back the location variable at index li.
+func (c *Ctx) loadSourceLike(fn *types.Func, depth int) (li, di int, ok bool) {
+	fd := c.declOf[fn]
+	if fd == nil || fd.Body == nil || depth > 2 {
+		return 0, 0, false
+	}
+	info := c.pkgOf[fd].TypesInfo
+	var locObj, dataObj types.Object
+	ast.Inspect(fd.Body, func(n ast.Node) bool {
+		as, isAs := n.(*ast.AssignStmt)
+		if !isAs || len(as.Rhs) != 1 || len(as.Lhs) < 3 {
+			return true
+		}
+		ce, isCall := ast.Unparen(as.Rhs[0]).(*ast.CallExpr)
+		if !isCall {
+			return true
+		}
+		l, d, like := 1, 2, isLoadSourceCall(info, ce)
+		if !like {
+			if h := originOf(Callee(info, ce)); h != nil && h != fn {
+				l, d, like = c.loadSourceLike(h, depth+1)
+			}
+		}
+		if like && l < len(as.Lhs) && d < len(as.Lhs) {
+			locObj, dataObj = identObj(info, as.Lhs[l]), identObj(info, as.Lhs[d])
+		}
+		return true
+	})
+	if locObj == nil || dataObj == nil {
+		return 0, 0, false
+	}
+	li, di = -1, -1
+	good := true
+	ast.Inspect(fd.Body, func(n ast.Node) bool {
+		if _, isLit := n.(*ast.FuncLit); isLit {
+			return false
+		}
+		rs, isRet := n.(*ast.ReturnStmt)
+		if !isRet {
+			return true
+		}
+		d, l := -1, -1
+		for i, r := range rs.Results {
+			if o := identObj(info, r); o != nil {
+				if o == dataObj {
+					d = i
+				}
+				if o == locObj {
+					l = i
+				}
+			}
+		}
+		if d < 0 {
+			return true
+		}
+		if l < 0 || (di >= 0 && (di != d || li != l)) {
+			good = false
+			return true
+		}
+		li, di = l, d
+		return true
+	})
+	if !good || di < 0 {
+		return 0, 0, false
+	}
+	return li, di, true
+}
+
 func init() {
 	register(&Rule{ID: "CONFINE.location-consumed", Floor: 2,
 		Doc: "wherever the interpreter asks its source library for a file and goes on to evaluate the bytes (a LoadSource call whose data result is used), the location the loaded forms are stamped with is the library's OWN report of what it read — the call's second result, bound to a variable that reaches the loading call unchanged — never the location string the caller supplied: nested relative load-file calls resolve against the directory of the file that was actually read (a confined library reports the resolved path it checked), so a symlinked or re-spelled location cannot make them resolve somewhere else",
@@ -39,23 +109,40 @@ func init() {
 				ord := &ordinal{}
 				ast.Inspect(u.Decl.Body, func(n ast.Node) bool {
 					as, ok := n.(*ast.AssignStmt)
-					if !ok || len(as.Rhs) != 1 || len(as.Lhs) != 4 {
+					if !ok || len(as.Rhs) != 1 || len(as.Lhs) < 3 {
 						return true
 					}
 					ce, ok := ast.Unparen(as.Rhs[0]).(*ast.CallExpr)
-					if !ok || !isLoadSourceCall(info, ce) {
+					if !ok {
+						return true
+					}
+					li, di, like := 1, 2, isLoadSourceCall(info, ce)
+					if !like {
+						// a wrapper of the module that hands back what a LoadSource call reported
+						if h := originOf(Callee(info, ce)); h != nil {
+							li, di, like = c.loadSourceLike(h, 0)
+						}
+					}
+					if !like || li >= len(as.Lhs) || di >= len(as.Lhs) {
 						return true
 					}
 					construct := ord.next("LoadSource result")
-					dataObj := identObj(info, as.Lhs[2])
-					if id, ok := as.Lhs[2].(*ast.Ident); ok && id.Name == "_" {
+					dataObj := identObj(info, as.Lhs[di])
+					if id, ok := as.Lhs[di].(*ast.Ident); ok && id.Name == "_" {
 						dataObj = nil
 					}
 					if dataObj == nil {
 						obs = append(obs, mkOb(c, "CONFINE.location-consumed", u, construct, as, Proved, "the data result is not used: nothing is loaded from this call", false))
 						return true
 					}
-					locID, _ := as.Lhs[1].(*ast.Ident)
+					// the function is itself such a wrapper: it returns the data together with the location, and
+					// the obligation is owed where its result is used
+					if wl, wd, isW := c.loadSourceLike(u.Obj, 0); isW {
+						obs = append(obs, mkOb(c, "CONFINE.location-consumed", u, construct, as, Proved,
+							fmt.Sprintf("hands the library's data (result %d) back together with the location the library reported (result %d); judged at its callers", wd, wl), true))
+						return true
+					}
+					locID, _ := as.Lhs[li].(*ast.Ident)
 					if locID == nil || locID.Name == "_" {
 						obs = append(obs, mkOb(c, "CONFINE.location-consumed", u, construct, as, Violated,
 							"the library's report of the location it read (second result) is discarded while the bytes are loaded: the forms are stamped with some other location, and relative load-file calls inside them resolve against a directory the library never checked", true))
